@@ -26,8 +26,10 @@ var b2sigma = [12][16]int{
 	{14, 10, 4, 8, 9, 15, 13, 6, 1, 12, 0, 2, 11, 7, 5, 3},
 }
 
+//go:norace
 func rotr64(x uint64, n uint) uint64 { return x>>n | x<<(64-n) }
 
+//go:norace
 func b2mix(v *[16]uint64, a, b, c, d int, x, y uint64) {
 	v[a] = v[a] + v[b] + x
 	v[d] = rotr64(v[d]^v[a], 32)
@@ -40,6 +42,8 @@ func b2mix(v *[16]uint64, a, b, c, d int, x, y uint64) {
 }
 
 // b2compress is F of RFC 7693 §3.2 (t < 2^64 is enough here).
+//
+//go:norace
 func b2compress(h *[8]uint64, blk []byte, t uint64, last bool) {
 	var m [16]uint64
 	for i := range m {
@@ -69,6 +73,8 @@ func b2compress(h *[8]uint64, blk []byte, t uint64, last bool) {
 }
 
 // Blake2b is unkeyed BLAKE2b with an outLen-byte digest (1..64), RFC 7693 §3.3.
+//
+//go:norace
 func Blake2b(outLen int, data []byte) []byte {
 	if outLen < 1 || outLen > 64 {
 		panic("argon2ref: bad BLAKE2b output length")
